@@ -26,7 +26,7 @@ ID = "C17"
 RULE = ("Hypothesis-generated sequences of 1..6 calls of anneal_qubo/quso/pubo/puso executed in one persistent process "
         "against an ASan+UBSan build of the extension compiled from the working tree: single variable, isolated variables, "
         "Matrix label gaps, degree up to 8, up to 40 terms (many on one spin: realloc growth), no couplings, only an offset, "
-        "stale models whose terms cancelled, empty / zero-temperature schedules, num_anneals 1..50, with/without initial state, "
+        "stale models whose terms cancelled, a Matrix label of 2.6 million (sub-check huge), empty / zero-temperature schedules, num_anneals 1..50, with/without initial state, "
         "both visiting orders. Oracle: no sanitizer report, child alive, C11's result oracle per call, identical outcomes of seeded calls under two heap fill patterns (reads of uninitialised memory). "
         "Non-trivial = the sequence reaches the C entry points at least twice with different (function, #variables, #terms) shapes. "
         "Distinct = distinct spec hash.")
@@ -239,6 +239,8 @@ def run_case(spec, rec):
                 classes.add("empty_schedule")
         if c["num_anneals"] >= 20:
             classes.add("num_anneals>=20")
+        if max([l for l in c["labels"] if isinstance(l, int)] or [0]) >= 100000:
+            classes.add("huge_matrix_label")
     rec.case(spec, len(shapes) >= 2, sorted(classes))
 
 
@@ -281,15 +283,47 @@ def _stress_call():
             lambda p: st.integers(3, len(p)).map(lambda n: p[:n])).flatmap(for_labels)
 
     pairs = [(f, k) for f in ag.FUNCS for k in ag.FUNCS[f][1]]
-    return st.one_of(base, base, st.sampled_from(pairs).flatmap(big))
+
+    # very many spins through one large Matrix label (buffers far beyond any stack frame); one anneal,
+    # at most one sweep, so the cost stays in building the result
+    def huge(fk_top):
+        (func, kind), top, c, sched = fk_top
+        return {"func": func, "kind": kind, "labels": [0, top], "terms": [[(0, top), c], [(top,), -c]], "stale": [],
+                "num_anneals": 1, "anneal_duration": 1, "schedule": ("explicit", sched), "temperature_range": None,
+                "init": None, "in_order": True, "seed": 7}
+    mpairs = [p for p in pairs if gen.is_matrix(p[1])]
+    hugecall = st.tuples(st.sampled_from(mpairs), st.sampled_from([2600000]), st.sampled_from([1, -2, 0.5]),
+                         st.sampled_from([[], [1.0]])).map(huge)
+    normal = st.one_of(base, base, st.sampled_from(pairs).flatmap(big))
+    return normal, hugecall
 
 
 def sequence():
-    return st.fixed_dictionaries({"calls": st.lists(_stress_call(), min_size=1, max_size=6)})
+    return st.fixed_dictionaries({"calls": st.lists(_stress_call()[0], min_size=1, max_size=6)})
+
+
+def huge_cases(tier):
+    """One call with 2.6 million spins (a single large Matrix label) followed by a small call in the same
+    process.  Enumerated: the polynomial kernel (most buffers) in the quick tier, every Matrix path in thorough."""
+    def call(func, kind, sched):
+        top = 2600000
+        return {"func": func, "kind": kind, "labels": [0, top], "terms": [[(0, top), 1], [(top,), -2]], "stale": [],
+                "num_anneals": 1, "anneal_duration": 1, "schedule": ("explicit", sched), "temperature_range": None,
+                "init": None, "in_order": True, "seed": 7}
+    small = {"func": "anneal_puso", "kind": "dict", "labels": ["a", "b"], "terms": [[("a", "b"), -1], [("a",), 0.5]],
+             "stale": [], "num_anneals": 2, "anneal_duration": 2, "schedule": "linear", "temperature_range": None,
+             "init": None, "in_order": False, "seed": 3}
+    quick = [("anneal_puso", "PUSOMatrix", [1.0]), ("anneal_pubo", "PUBOMatrix", [])]
+    full = quick + [("anneal_puso", "QUSOMatrix", []), ("anneal_quso", "QUSOMatrix", [1.0]),
+                    ("anneal_qubo", "QUBOMatrix", []), ("anneal_pubo", "QUBOMatrix", [1.0])]
+    for f, k, sc in (quick if tier == "quick" else full):
+        yield {"calls": [call(f, k, sc), small]}
 
 
 def subchecks(tier):
-    return [Sub("sequence", sequence(), run_case, quick=3600, thorough=80000)]
+    return [Sub("sequence", sequence(), run_case, quick=3600, thorough=80000),
+            # expensive (tens of seconds per case under ASan): a handful of cases only
+            Sub("huge", None, run_case, quick=0, thorough=0, enumerate=huge_cases, max_shards=6)]
 
 
 # --------------------------------------------------------------------------
